@@ -69,6 +69,9 @@ fn strip_effects(t: &Tree) -> Tree {
         Tree::Un(d, x, a) if d != "SideEffect" && matches!(&**a, Tree::Un(e, ..) if e == "SideEffect") => Tree::Leaf(d.clone(), x.clone()),
         Tree::Un(d, x, a) => Tree::Un(d.clone(), x.clone(), Box::new(strip_effects(a))),
         Tree::Bin(d, _, l, _) if d == "SideEffect" => strip_effects(l),
+        // a value with a block written before it (left child only), or with a block on each side
+        Tree::Bin(d, x, l, None) if matches!(&**l, Tree::Un(e, ..) if e == "SideEffect") => Tree::Leaf(d.clone(), x.clone()),
+        Tree::Bin(d, x, l, Some(r)) if matches!(&**l, Tree::Un(e, ..) if e == "SideEffect") && matches!(&**r, Tree::Un(e, ..) if e == "SideEffect") => Tree::Leaf(d.clone(), x.clone()),
         Tree::Bin(d, x, l, r) => Tree::Bin(d.clone(), x.clone(), Box::new(strip_effects(l)), r.as_ref().map(|r| Box::new(strip_effects(r)))),
         Tree::Group(d, x) => Tree::Group(d.clone(), x.as_ref().map(|x| Box::new(strip_effects(x)))),
     }
@@ -206,6 +209,31 @@ fn text_rewrites(src: &str, toks: &[RTok]) -> Vec<TextRewrite> {
         if !matches!(first.ty, T::Whitespace | T::Subexpression) {
             out.push(TextRewrite { kind: "leading-comment-line", text: format!("@@ remark\n{}", src), gated: true });
             out.push(TextRewrite { kind: "leading-space", text: format!("  {}", src), gated: false });
+        }
+    }
+    out
+}
+
+/// an effect-free block written directly before a plain operand: after a binary operator or a comma and the
+/// blank that follows it (`5 + 3` -> `5 + [0] 3`); the block hangs on the operand's left and runs before it
+fn block_before_rewrites(src: &str, toks: &[RTok]) -> Vec<TextRewrite> {
+    let s: Vec<char> = src.chars().collect();
+    let mut out = vec![];
+    let operator = |t: &RTok| {
+        matches!(
+            t.ty,
+            T::PlusSign | T::Subtraction | T::MultiplicationSign | T::Division | T::IntegerDivision | T::Remainder | T::ExponentialSign | T::BitwiseAnd | T::BitwiseOr | T::BitwiseXor
+                | T::BitwiseLeftShift | T::BitwiseRightShift | T::LessThan | T::LessThanOrEqual | T::GreaterThan | T::GreaterThanOrEqual | T::Equality | T::Inequality | T::Pair | T::Comma | T::Concatenation
+        )
+    };
+    let plain_operand = |t: &RTok| matches!(t.ty, T::Number | T::CharList | T::Identifier | T::True | T::False | T::UnitLiteral | T::Symbol | T::Value);
+    for i in 0..toks.len().saturating_sub(2) {
+        if operator(&toks[i]) && is_blank_only(&toks[i + 1]) && plain_operand(&toks[i + 2]) {
+            // a float operand right after `]` would be lexed differently: keep to operands that cannot start with a period
+            let at = toks[i + 2].at;
+            for body in ["[0] ", "[1 + 2] "] {
+                out.push(TextRewrite { kind: "block-before-operand", text: splice(&s, at, at, body), gated: false });
+            }
         }
     }
     out
@@ -487,6 +515,10 @@ pub fn check_program(e: &E, input: &V, resolves: &HashMap<u64, V>, r: &mut Rng, 
         }
         compare(rw.kind, rw.kind, &src, &rw.text, input, &base, resolves, TreeRel::Same, acc);
     }
+    // ---- an effect-free block before every plain right operand
+    for rw in block_before_rewrites(&src, &toks) {
+        compare(rw.kind, rw.kind, &src, &rw.text, input, &base, resolves, TreeRel::ModEffects, acc);
+    }
     // ---- single structural rewrites at every position
     let srs = structural_rewrites(e, r, all_single);
     for (kind, x, rel) in &srs {
@@ -534,6 +566,19 @@ pub fn check_program(e: &E, input: &V, resolves: &HashMap<u64, V>, r: &mut Rng, 
             if admissible(&toks2, &sig2, &rt2, rw) {
                 text = rw.text.clone();
                 chain.push(rw.kind);
+            }
+        }
+        // now and then blocks before operands as well (with the blocks after values from the structural step this
+        // puts a block on each side of one operand)
+        let mut rel = rel;
+        for _ in 0..r.below(3) {
+            if let RLex::Tokens(toks3) = reflex(&text) {
+                let c = block_before_rewrites(&text, &toks3);
+                if !c.is_empty() {
+                    text = c[r.below(c.len())].text.clone();
+                    chain.push("block-before-operand");
+                    rel = TreeRel::ModEffects;
+                }
             }
         }
         if chain.len() < 2 {
@@ -681,7 +726,7 @@ pub fn run(ctx: &Ctx) -> (Acc, String, bool) {
         }
     });
     let rule = format!(
-        "every core-language AST of <= {} nodes ({} programs) and {} random programs (depth <= 5); on each: every single application, at every position, of: widen a blank run with space / tab / several, blank to tab, annotation in a blank run, comment line in a blank run, remove a blank run, insert a blank / an annotation between adjacent tokens, trailing blanks before a line break and at the end, blanks on the empty line of a blank-line separator, comment line after a line break and at the start (text rewrites admitted only when the reference lexer sees the same significant tokens and, for the gated ones, the reference parser the same tree); parentheses around every operand; an effect-free side-effect block added after every value or group; effect-free blocks dropped; plus random combinations of 2..7 rewrites; the text rewrites (single, and combinations) also on every script under the repository's tests/scripts. Parse tree (modulo trivia / added groups / added blocks), final value on both stores and host resolve sequence are compared with the unrewritten program's.",
+        "every core-language AST of <= {} nodes ({} programs) and {} random programs (depth <= 5); on each: every single application, at every position, of: widen a blank run with space / tab / several, blank to tab, annotation in a blank run, comment line in a blank run, remove a blank run, insert a blank / an annotation between adjacent tokens, trailing blanks before a line break and at the end, blanks on the empty line of a blank-line separator, comment line after a line break and at the start (text rewrites admitted only when the reference lexer sees the same significant tokens and, for the gated ones, the reference parser the same tree); parentheses around every operand; an effect-free side-effect block added after every value or group, and before every plain operand that follows a binary operator or a comma; effect-free blocks dropped; plus random combinations of 2..7 rewrites; the text rewrites (single, and combinations) also on every script under the repository's tests/scripts. Parse tree (modulo trivia / added groups / added blocks), final value on both stores and host resolve sequence are compared with the unrewritten program's.",
         k, small_total, random_total
     );
     (acc, rule, false)
